@@ -17,7 +17,7 @@ MODEL_FAMILIES = ["string", "key", "list"]
 def make_cases(tier, seed):
     cases = gen_ttl.gen_timer(seed, MODEL_TYPES)
     cases += gen_ttl.gen_matrix(seed, tier, MODEL_TYPES, MODEL_FAMILIES)
-    cases += gen_ttl.gen_random(seed, 300 if tier == "quick" else 6000, MODEL_TYPES)
+    cases += gen_ttl.gen_random(seed, 2000 if tier == "quick" else 20000, MODEL_TYPES)
     return cases
 
 
@@ -41,8 +41,8 @@ def run(ctx):
             rule="(a) matrix: value type x way of attaching/keeping/removing a deadline (EXPIRE x {none,NX,XX,GT,LT} x "
                  "{no, earlier, later existing deadline}, EXPIRE 0/negative/twice, PERSIST, SETEX, SET EX/PX(1,999,1000,1001,1500,2000)/"
                  "EXAT/KEEPTTL/plain/NX/XX GET, MSET, APPEND/INCR/RPUSH/LPOP/LMOVE-self, RENAME onto/away/self, DEL+recreate) x each "
-                 "candidate deadline d x probe instant {d-1s, d-1ms, d, d+1ms, d+1s} x probing command (quick: 7 sampled of all "
-                 "string/key/list reads and writes incl. MGET, DEL, EXISTS, RENAME, LMOVE, BLPOP, KEYS; thorough: all, 3 clock phases), "
+                 "candidate deadline d x probe instant {d-1s, d-1ms, d, d+1ms, d+1s} x probing command (all "
+                 "string/key/list reads and writes incl. MGET, DEL, EXISTS, RENAME, LMOVE, BLPOP, KEYS; quick: two seeded clock phases, thorough: six), "
                  "dump after attach, after the probe and after TTL/TYPE/EXISTS; (b) timer scenarios (re-created/extended/persisted/"
                  "renamed keys vs the old timer, 3 s after the deadline); (c) seeded random TTL-heavy programs with sleeps around "
                  "second boundaries; thorough: (d) real-clock TCP sample, TTL 1-2 s, either second accepted for a step that straddles a boundary",
